@@ -24,18 +24,27 @@ theorem add_statement_order :
 theorem layer0_cap :
     capStmts = ["M := idx.M", "if lc == 0", "M *= 2", "if len(neighbor.Edges[lc]) > M"] := by decide
 
-/-- `HNSW.searchLayer` / `scanNbrs` / `stops` / `admits`: the entry point is seeded only
-    when not soft-deleted; early exit on `>`; soft-deleted and visited neighbours are
-    skipped; admission on `<`; eviction when the result heap exceeds `ef`. -/
+/-- `HNSW.searchLayer` / `scanNbrs` / `stops` / `admits` (since fixes f6a780e): `ef` is
+    clamped to ≥ 1; the start vertex always goes on the candidate heap, on the result heap
+    only when not soft-deleted; early exit on `>`; visited neighbours are skipped (soft-deleted
+    ones are NOT); admission on `<`; a soft-deleted neighbour is not pushed to the result heap;
+    eviction when the result heap exceeds `ef`. -/
 theorem searchLayer_sites :
     searchLayerConds =
-      ["!idx.deletedNodes.Contains(entryPoint)",
+      ["ef < 1",
+       "!idx.deletedNodes.Contains(entryPoint)",
        "result.Len() >= ef && current.distance > (*result)[0].distance",
        "layer < len(node.Edges)",
-       "idx.deletedNodes.Contains(neighborID)",
        "!visited.Contains(neighborID)",
        "result.Len() < ef || d < (*result)[0].distance",
+       "!idx.deletedNodes.Contains(neighborID)",
        "result.Len() > ef"] := by decide
+
+/-- `HNSW.addWith` / `addFlushes`: `flushLocked` runs first when the id is still tombstoned
+    (fix e29df80) and when the entry point is soft-deleted (fix f98dc7f). -/
+theorem add_flush_sites :
+    addFlushConds = ["id != 0 && idx.deletedNodes.Contains(id)",
+                     "idx.deletedNodes.Contains(idx.entryPoint)"] := by decide
 
 /-- `HNSW.prune`: ids missing from `idx.nodes` are skipped; at most `M` are kept. -/
 theorem prune_sites : pruneConds = ["idx.nodes[nid] == nil", "len(candList) < M"] := by decide
